@@ -237,6 +237,10 @@ def run(ctx):
         stores = [s for bl in cl[0]["blocks"] for s in bl["stmts"] if s["k"] == "Assign" and s["place"]["proj"]]
         ok = len(stores) == 1 and stores[0]["rv"]["k"] == "Use" and g.resolve_operand(stores[0]["rv"]["op"])[0] == ("arg", 2)
     ctx.ob("E-NOWRITE-ON-ERR", "interval Ok-continuation stores exactly the parsed value", ok, "")
+    # naming-law lints over the modules this property lives in (sibling slips: truth<->budget, stamp<->punctuation, left<->right, swapped arguments)
+    import roles as _roles
+    _roles.rule_R_ROLE(ctx, modules=('enum_narsese::term',))
+    _roles.rule_A_NAMES(ctx, modules=('enum_narsese::term',))
     ctx.undecided = ["the exact accepted integer syntax (std's usize::from_str, trusted: optional leading '+', decimal digits, must fit usize)"]
     ctx.assumptions = ["nar_dev_utils::ResultBoost::transform runs its first closure iff the receiver is Ok, the second iff Err (read from the pinned source; version asserted)"]
     ctx.trusted = ["rustc HIR/MIR", "mirfacts driver", "python rule layer", "std String::clear/push_str, Vec/HashSet::extend semantics"]
